@@ -29,12 +29,15 @@ GRAPHS = {
     "no_flows": (["sysenv", "A"], [], [("A", "te")]),
     "self_loop": (["sysenv", "A"], [("sysenv", "A", "te"), ("A", "A", "te"), ("A", "sysenv", "te")], []),
     "two_stocks_one_process": (["sysenv", "A"], [("sysenv", "A", "te"), ("A", "sysenv", "te")], [("A", "te"), ("A", "t")]),
+    "inner_ring_mixed_dims": (["sysenv", "A", "B", "C"], [("sysenv", "A", "te"), ("A", "B", "t"), ("B", "C", "te"), ("C", "A", "er"), ("C", "sysenv", "t")], []),
     "stocks_on_two_processes": (["sysenv", "A", "B"], [("sysenv", "A", "te"), ("A", "B", "et"), ("B", "sysenv", "t")], [("A", "te"), ("B", "tr"), (None, "t")]),
 }
 
 
 class System:
-    def __init__(self, W, gname):
+    def __init__(self, W, gname, table="as_listed"):
+        """table: order of the process table (dict) relative to the process ids -- 'as_listed' (id = position, what
+        make_processes gives) or 'permuted' (sysenv first, the others in reverse: ids are not positions)"""
         from flodym.mfa_system import MFASystem
         from flodym.processes import Process
         from flodym.flodym_arrays import Flow, StockArray
@@ -45,6 +48,9 @@ class System:
         procs, flows, stocks = GRAPHS[gname]
         self.D = {l: (W.dim(l, lo=3) if l == "t" else W.dim(l)) for l in "ter"}
         self.processes = {name: (Process.model_construct(name=name, id=i) if W.symbolic else Process(name=name, id=i)) for i, name in enumerate(procs)}
+        if table == "permuted":
+            names = list(self.processes)
+            self.processes = {n: self.processes[n] for n in names[:1] + names[:0:-1]}
         self.flows = {}
         self.flow_list = []
         for k, (a, b, letters) in enumerate(flows):
@@ -140,7 +146,10 @@ def graph_names(tier):
 
 
 def sk_graphs(tier):
-    return [{"graph": g} for g in graph_names(tier)]
+    out = [{"graph": g} for g in graph_names(tier)]
+    # the process table in another order than the ids
+    out += [{"graph": g, "table": "permuted"} for g in BASE_GRAPHS if len(GRAPHS[g][0]) > 2]
+    return out
 
 
 MB_TARGETS = [
@@ -166,7 +175,7 @@ MB_TARGETS = [
 def u_get_mass_balance(W, sk):
     from .arrays import operator_contract_stubs
 
-    S = System(W, sk["graph"])
+    S = System(W, sk["graph"], table=sk.get("table", "as_listed"))
     snaps = SL.snapshot(W, S.arrays())
     # modular: the arithmetic on flows goes through the *contracts* of the FlodymArray operators (stubs)
     out = W.call(lambda: S.mfa._get_mass_balance(), stubs=operator_contract_stubs(W))
@@ -211,7 +220,7 @@ def sk_check(tier):
 def u_check_mass_balance(W, sk):
     import flodym.mfa_system as ms
 
-    S = System(W, sk["graph"])
+    S = System(W, sk["graph"], table=sk.get("table", "as_listed"))
     mfa = S.mfa
     snaps = SL.snapshot(W, S.arrays())
     warnings = []
@@ -333,7 +342,7 @@ def u_check_flows(W, sk):
     import flodym.mfa_system as ms
     import numpy as np
 
-    S = System(W, sk["graph"])
+    S = System(W, sk["graph"], table=sk.get("table", "as_listed"))
     mfa = S.mfa
     snaps = SL.snapshot(W, S.arrays())
     msgs = []
@@ -395,7 +404,7 @@ def u_nan(W, sk):
     import numpy as np
     import flodym.mfa_system as ms
 
-    S = System(W, sk["graph"])
+    S = System(W, sk["graph"], table=sk.get("table", "as_listed"))
     fl = S.flow_list[W.rng.randrange(len(S.flow_list))][0]
     idx = tuple(W.rng.randrange(s) for s in fl.values.shape)
     fl.values[idx] = np.nan
@@ -417,7 +426,7 @@ def u_nan(W, sk):
 def u_mustfail_system(W, sk):
     from fvc.harness import Outcome
 
-    S = System(W, sk["graph"])
+    S = System(W, sk["graph"], table=sk.get("table", "as_listed"))
     out = W.call(lambda: S.mfa._get_mass_balance())
     W.prove("mf.returns", out.kind == "return")
     if out.kind != "return":
